@@ -235,8 +235,8 @@ PROPS['C05'] = {
     ],
 }
 PROPS['C01'] = {
-    'units': ['solver'],
-    'functions': SOLVER_FNS,
+    'units': ['solver', 'print'],
+    'functions': SOLVER_FNS + ['solutions.rs::format_solution'],
     'oracles': {'*': 'c01_prog', '#solve_all': 'c01_solve_all'},
     'bounded': [('c01_prog', 'the equivalence itself, BOUNDED: 3000 random stratified programs per seed (facts; rules of three levels calling lower levels only; conjunction, disjunction in one level of parentheses, unification, comparisons, count / append, '
                              'not, fail, print; partly instantiated structures; no cut) - the engine\'s answers (in order, with multiplicity, variables normalised) against a reference interpreter written from the statement (depth-first, left to right, clause order); '
@@ -249,7 +249,7 @@ PROPS['C01'] = {
         'so nothing an abandoned alternative has bound can appear in a later answer; an exhausted node yields nothing more (C05); a flagged node yields nothing more (C02)',
         'NOT PROVED, bounded only: that the answers are exactly those of depth-first, left-to-right, clause-order resolution, in that order and multiplicity - a whole-history equivalence with a reference semantics, modulo renaming of unbound variables '
         '(clause renaming draws ids from a global counter that the search also rewinds); the random-program comparison stands in for it, labelled bounded',
-        'format_solution (the `$Var = value` text of solve / solve_all) is not under contract; the bounded oracle c01_solve_all compares its output',
+        'format_solution is PROVED (unit print): `$Var = value` for each variable among the query\'s arguments, in argument order, separated by ", ", the value being the corresponding argument of the result (#solution_text) - under the precondition that the result has the arity of the query (replace_variables keeps the shape; that precondition is not carried through solve / solve_all, where format_solution is abstract); Display of the value is uninterpreted',
         'outside: parenthesised groups nested in groups (tokenizer, 8.25) and a cut inside a group with goals to its right inside the group (8.26) - observations, not generated',
     ],
 }
